@@ -288,6 +288,22 @@ Example C06_early_final_response :
      P (FHeaders 1 0 true true); C (FHeaders 3 10 true true)] = false.
 Proof. vm_compute. split; reflexivity. Qed.
 
+(* DATA frames that carry nothing but padding (pad = len) are debited and refunded in full: two
+   4096-byte padding-only frames on a stream with an 8192-byte window leave both windows where they
+   were, with the WINDOW_UPDATEs on the wire; and after MAX_CONCURRENT_STREAMS is lowered to the
+   number of open streams the next EOpen waits *)
+Example C06_padding_only_and_lowered_limit :
+  let r := conn_run (conn0 0 0 8192 1000)
+    [ESettings [(3,2)]; EOpen 10 true; EPeerHeaders 1 false; EPeerData 1 4096 4096 false;
+     EPeerData 1 4096 4096 false; ESettings [(3,1)]; EOpen 10 true] in
+  snd r = [P (FSettings [(3, 2)]); C FSettingsAck; C (FHeaders 1 10 true true); P (FHeaders 1 0 true false);
+           P (FData 1 4096 false); C (FWindowUpdate 0 4096); C (FWindowUpdate 1 4096);
+           P (FData 1 4096 false); C (FWindowUpdate 0 4096); C (FWindowUpdate 1 4096);
+           P (FSettings [(3, 1)]); C FSettingsAck] /\
+  cc_in (fst r) = mkIn 66535 0 /\
+  map (fun s => (cs_in s, cs_buf s)) (cc_streams (fst r)) = [(mkIn 8192 0, 0)].
+Proof. vm_compute. repeat split. Qed.
+
 (* non-vacuity: a legal configuration (priority fields on HEADERS, Firefox-like PRIORITY frames up
    to stream 13, stream window 1000) and an interleaving with a 40000-byte header block, the
    peer lowering MAX_CONCURRENT_STREAMS to 1 and INITIAL_WINDOW_SIZE to 100 and then 0 (window
